@@ -30,13 +30,30 @@ pub struct XmlDoc {
     pub tags: Vec<TagInfo>,
 }
 
-const PREFIXES: &[&str] = &["a", "b", "a", "b", "p", "a", "xml", "xmlns"];
-const LOCALS: &[&str] = &["x", "y", "z", "script", "xmlns", "e", "template"];
-const URIS: &[&str] = &["u1", "u2", "", XML_NS, XMLNS_NS, "u1", "http://www.w3.org/1999/xhtml"];
-const VALUES: &[&str] = &["", "v", "1", "a b", "&amp;", "&lt;", "&#13;", "&#9;", "'", "&quot;", "é", ">", "\t", "\n"];
+const PREFIXES: &[&str] = &[
+    "a", "b", "a", "b", "p", "a", "xml", "xmlns", "a", "b", "p", "a", "b", "xml", "xmlns", "XML", "Xml", "XMLNS", "xmlnS", "c",
+    "long-prefix.name_1", "é",
+];
+const LOCALS: &[&str] = &[
+    "x", "y", "z", "script", "xmlns", "e", "template", "x", "y", "z", "e", "lang", "space", "XMLNS", "Xmlns", "é",
+    "a-rather-long-local-name.with_punctuation-0123456789",
+];
+/// literal URI values (no references to decode): the reserved ones, near misses of them
+/// (suffix, missing slash, other case), and ordinary ones
+const URIS: &[&str] = &[
+    "u1", "u2", "", XML_NS, XMLNS_NS, "u1", "http://www.w3.org/1999/xhtml", "u1", "u2", "", XML_NS, XMLNS_NS,
+    "http://www.w3.org/2000/xmlns/ext", "http://www.w3.org/2000/xmlns", "HTTP://WWW.W3.ORG/2000/XMLNS/",
+    "http://www.w3.org/XML/1998/namespace/2", "http://www.w3.org/XML/1998/namespac", "http://www.w3.org/2000/svg", "u 1", "ü",
+    "urn:a-long-namespace-name:0123456789:abcdefghijklmnopqrstuvwxyz:0123456789:abcdefghijklmnopqrstuvwxyz",
+];
+const VALUES: &[&str] = &[
+    "", "v", "1", "a b", "&amp;", "&lt;", "&#13;", "&#9;", "'", "&quot;", "é", ">", "\t", "\n", "\u{85}", "\u{2028}", "\u{80}",
+    "\u{9f}", "\u{7f}", "\u{1}", "\u{a0}", "&#133;", "&#x80;", "\u{fffe}", "😁", "]]>", "--",
+];
 const TEXTS: &[&str] = &[
     "t", " ", "\n", "x y", "&amp;", "&lt;", "&gt;", "&#65;", "&#x41;", "é", "&apos;", "&quot;", "]]>", "\r\n", "\r", "\0",
-    "\u{FEFF}", "&", "&am", "&unknown;", "&#", "'", "\"", ">", "&amp\r", "&am\r\n", "&#13;",
+    "\u{FEFF}", "&", "&am", "&unknown;", "&#", "'", "\"", ">", "&amp\r", "&am\r\n", "&#13;", "\u{85}", "\u{2028}", "\u{2029}",
+    "\u{80}", "\u{9f}", "\u{7f}", "\u{1}", "\u{b}", "\u{c}", "\u{a0}", "&#133;", "&#x9F;", "\u{fffe}", "\u{ffff}", "😁", "--", "?>",
 ];
 
 fn qname(prefix: &Option<String>, local: &str) -> String {
@@ -70,8 +87,17 @@ impl<'a, 'b> Gen<'a, 'b> {
 
     fn gen_tag_attrs(&mut self, id: usize) -> Vec<SrcAttr> {
         let mut attrs = vec![];
-        let n = self.s.len(5);
+        // rarely a tag with many attributes (thresholds of sorting / hashing / small-vector code)
+        let many = self.s.chance(5);
+        let n = if many { 17 + self.s.below(24) } else { self.s.len(5) };
         for _ in 0..n {
+            if many && self.s.chance(190) {
+                // mostly distinct qualified names; aliased prefixes make expanded-name duplicates
+                let prefix = if self.s.chance(200) { Some(self.s.pick(&["a", "b", "p", "c"]).to_string()) } else { None };
+                let local = format!("f{}", self.s.below(14));
+                attrs.push(SrcAttr { prefix, local, value: self.s.pick(VALUES).to_string() });
+                continue;
+            }
             match self.s.below(10) {
                 0 | 1 => {
                     // default namespace declaration
@@ -221,6 +247,50 @@ pub fn gen_xml(s: &mut Src, max_elems: usize) -> XmlDoc {
 /// XML text with character noise (for robustness / metamorphic checks that do
 /// not need the side table).
 pub fn gen_xml_noisy(s: &mut Src, max_elems: usize) -> String {
+    if s.chance(80) {
+        return xml_soup(s, 4 * max_elems);
+    }
     let d = gen_xml(s, max_elems);
     crate::gen::html::noise(s, d.text)
+}
+
+/// Pieces of XML syntax, one per tokenizer state / transition of the XML5 draft: every kind of
+/// tag, attribute (double, single, un-quoted, valueless), white space, reference, comment, PI,
+/// CDATA and DOCTYPE piece, complete and cut short.
+pub const XML_FRAGMENTS: &[&str] = &[
+    "<", ">", "</", "/>", "<a", "<b:c", "</a>", "</b:c>", "</>", "<a>", "<a/>", "<script>", "</script>", "<script/>", "<a ", "<a\t", "<a\n",
+    "<a\x0C", "<a\r", " b", " b=", " b=c", " b=c\x0Cd=e", " b=c\td=e", " b=c/", " b=c>", " b=\"", " b='", " b=\"c\"", " b='c'", " b=\"c\"d=e",
+    " b = c", " b=&amp;", " b=\"&lt;\"", " b=c&#65;", " =", " \"", " '", " b:c=d", " xmlns=u", " xmlns:b=u", " xml:lang=en", "\"", "'", "=",
+    "/", " ", "\t", "\n", "\x0C", "\r", "\r\n", "\0", "\u{FEFF}", "x", "text", "é", "😁", "&", "&amp;", "&amp", "&am", "&lt;", "&gt;", "&quot;",
+    "&apos;", "&unknown;", "&#", "&#;", "&#65;", "&#65", "&#x", "&#x41;", "&#X41;", "&#x41", "&#0;", "&#13;", "&#133;", "&#xD800;", "&#x110000;",
+    "&#1114112;", "&#x100000041;", "&#4294967361;", "&#4294967297;", "&#99999999999;", "&#x0000000041;", "&a;b", "&;", "&amp\r", "&#x\r",
+    "&#1\n3;", "<!--", "-->", "<!---->", "<!--x-->", "<!-- - -- -->", "<!-->", "<!--->", "--", "-", "--!>", "<!", "<!x", "<?", "?>", "<?pi?>",
+    "<?pi x?>", "<?pi ?x?>", "<?xml version=\"1.0\"?>", "<??>", "<? ?>", "?", "<![CDATA[", "]]>", "]]", "]", "<![CDATA[x]]>", "<![CDATA[]]]]>",
+    "<![cdata[", "<![", "<!DOCTYPE", "<!DOCTYPE a>", "<!doctype a>", "<!DOCTYPE a PUBLIC \"p\" \"s\">", "<!DOCTYPE a SYSTEM 's'>",
+    "<!DOCTYPE a PUBLIC 'p'>", "<!DOCTYPE a [", "<!ENTITY e \"v\">", "]>", " PUBLIC", " SYSTEM", "<!DOCTYPE>", "<!DOCTYPE a b>", "<!DOCTYPE a PUBLIC>",
+    "<!DOCTYPE a PUBLIC \"p", "<!DOCTYPE a SYSTEM \"s\" x>", "<a b=\"c\"/>", "<a b='c' d=e f>", "<a:b xmlns:a=\"u\">", "<template>", "</template>",
+];
+
+/// Token soup for the XML tokenizer: random fragments, long runs around stride / buffer sizes,
+/// many repetitions of one fragment.
+pub fn xml_soup(s: &mut Src, max_frags: usize) -> String {
+    let n = s.len(max_frags);
+    let mut out = String::new();
+    for _ in 0..n {
+        if s.chance(8) {
+            let len = *s.pick(&[14usize, 15, 16, 17, 31, 32, 33, 63, 64, 65, 127, 128, 129, 1023, 1024, 1025]);
+            let fill = *s.pick(&["a", "b ", "é", "\n", "x\r\n", "&amp;"]);
+            while out.len() < len {
+                out.push_str(fill);
+            }
+        } else if s.chance(6) {
+            let f = *s.pick(XML_FRAGMENTS);
+            for _ in 0..s.range(20, 90) {
+                out.push_str(f);
+            }
+        } else {
+            out.push_str(*s.pick(XML_FRAGMENTS));
+        }
+    }
+    out
 }
